@@ -87,3 +87,45 @@ def python_sdk_parses(seed: int = 0, **_: Any) -> Dict[str, Any]:
                                  "observed": f"does not parse: {e.msg} at line {e.lineno}", "line": ln})
     return {"cases": cases, "distinct": cases, "failures": failures[:5], "exhaustive": False,
             "samples": [{"values": len(VALUES), "descriptions": len(DESCRIPTIONS)}]}
+
+
+def python_sdk_parses_for_models(seed: int = 0, **_: Any) -> Dict[str, Any]:
+    """The same for the other harness meta-models (constants, inheritance, classes without properties, methods /
+    constructors with 0..3 arguments): every *.py that the Python target writes must parse."""
+    from native import c02, c20java
+    failures: List[Dict[str, Any]] = []
+    cases = 0
+    generated = 0
+    with tempfile.TemporaryDirectory() as d:
+        root = pathlib.Path(d)
+        (root / "snippets").mkdir()
+        for name, content in c02.SNIPPETS.items():
+            (root / "snippets" / name).write_text(content, encoding="utf-8")
+        for k, (what, text) in enumerate(c20java._models()):
+            model = root / f"model_{k}.py"
+            model.write_text(text, encoding="utf-8")
+            out = root / f"out_{k}"
+            out.mkdir()
+            stdout, stderr = io.StringIO(), io.StringIO()
+            try:
+                rc = cg_main.execute(cg_main.Parameters(model_path=model, target=cg_main.Target.PYTHON,
+                                                        snippets_dir=root / "snippets", output_dir=out,
+                                                        cache_model=False), stdout=stdout, stderr=stderr)
+            except BaseException:  # noqa
+                continue  # C02, not C20
+            if rc != 0:
+                continue
+            generated += 1
+            for p in sorted(out.glob("**/*.py")):
+                cases += 1
+                src = p.read_text(encoding="utf-8")
+                try:
+                    ast.parse(src)
+                except SyntaxError as e:
+                    ln = src.splitlines()[e.lineno - 1][:200] if e.lineno and e.lineno <= len(src.splitlines()) else ""
+                    failures.append({"model": what, "file": str(p.relative_to(out)),
+                                     "observed": f"does not parse: {e.msg} at line {e.lineno}", "line": ln})
+    if generated == 0:
+        failures.append({"observed": "the Python target did not succeed on any of the models"})
+    return {"cases": cases, "distinct": generated, "failures": failures[:5], "exhaustive": False,
+            "samples": [{"models": generated, "python_files_parsed": cases}]}
